@@ -293,8 +293,8 @@ pub fn run(o: &Opts) {
                 a = a, m1 = m1, m2 = m2, t = t, r1 = 80 + r.below(5), r2 = "1.25", r3 = 50 + r.below(5), r4 = 4
             );
             let ledger = format!(
-                "2020/01/05 open\n    Assets:Bank  10 {a}\n    Assets:Cash  3 {m1}\n    Assets:Cash  7 {m2}\n    Equity:Opening\n",
-                a = a, m1 = m1, m2 = m2
+                "2020/01/05 open\n    Assets:Bank  10 {a}\n    Assets:Cash  3 {m1}\n    Assets:Cash  7 {m2}\n    Liabilities:Card  -2 {m1}\n    Income:Job  1 {t}\n    Equity:Opening\n",
+                a = a, m1 = m1, m2 = m2, t = t
             );
             let lp = scratch.write(&format!("conv{}/l.ledger", k), &ledger);
             let dbp = scratch.write(&format!("conv{}/prices.db", k), &db);
